@@ -44,7 +44,11 @@ impl ConjecturedSecurity {
             query_security += options.grinding_factor();
         }
 
-        Self(cmp::min(cmp::min(field_security, query_security) - 1, collision_resistance))
+        // `base_field_bits` is zero for a proof that claims an all-zero field modulus
+        Self(cmp::min(
+            cmp::min(field_security, query_security).saturating_sub(1),
+            collision_resistance,
+        ))
     }
 
     /// Returns the conjectured security level (in bits).
